@@ -436,7 +436,14 @@ func parsePre(c []string) *preCase {
 		switch f[0] {
 		case "wopts":
 			o := opt(f[1:])
-			pc.opts = func() *mcap.WriterOptions { return parseWopts(o) }
+			if os.Getenv("VERIF_SHARE_OPTS") == "1" && o["custom"] != "1" {
+				// (not with a caller-supplied compressor: that object is single-use state of its own)
+				// one options value handed to every writer of this workload, as a caller that keeps its options around does
+				shared := parseWopts(o)
+				pc.opts = func() *mcap.WriterOptions { return shared }
+			} else {
+				pc.opts = func() *mcap.WriterOptions { return parseWopts(o) }
+			}
 		case "fault", "comp", "lib":
 		case "H":
 			pc.calls = append(pc.calls, preCall{kind: "H", hdr: &mcap.Header{Profile: string(unhx(f[1])), Library: string(unhx(f[2]))}})
